@@ -48,6 +48,7 @@ NONBLANK_SPACERS = True
 NONBLANK_TAG = "NONBLANK-SPACER:"
 NONBLANK_WOPTS = [dict(spacer=","), dict(spacer=";"), dict(spacer=""), dict(spacer=",", version=1.2, wrap=True), dict(spacer="", len_numeric_field=-1)]
 MIN_CORPUS = 50         # example files expected to pass corpus_files.corpus() (71 on the unchanged tree)
+MIN_NULL_TWICE_12 = 6   # chains on a base with a repeated NULL line written in the 1.2 layout (7 forced in the quick tier + drawn ones)
 
 # read options used on every read of a chain
 ROPTS = [dict(), dict(), dict(), dict(mnemonic_case="preserve"), dict(mnemonic_case="lower"), dict(engine="normal"),
@@ -144,6 +145,83 @@ def lossy_base(rng):
     return lasgen.render(s)[0]
 
 
+# a mnemonic repeated inside one header section.  lasio keeps both items and numbers the SESSION mnemonic (NULL:1, NULL:2) while
+# original_mnemonic stays as written; the value:descr / descr:value layout of a written LAS 1.2 ~Well line (STRT/STOP/STEP/NULL
+# against the rest) is a matter of the mnemonic AS WRITTEN, which is also what the reader sees (seeded change C11_4 / C12_4).  A
+# duplicated STRT/STOP/STEP cannot be written at all, so the special mnemonic that is repeated is NULL; with two NULL items lasio
+# nulls nothing on read (c06.py ASSUMPTIONS), hence no NaN reaches the writer (which would need las.well["NULL"]).
+DUP_KINDS = ["null_same", "null_diff", "null_same", "null_diff", "null_case", "well_item", "param", "null_and_param", "null_three"]
+DUP_NULLS = ["-999.25", "-9999", "0", "-999.2500", "-9999.0"]
+DUP_NULL_DESCRS = ["NULL VALUE", "ALT NULL", "second null value", "NULL", "N"]
+# option sets that give the LAS 1.2 layout (version=None: only for a base that says VERS 1.2)
+DUP12_WOPTS = [dict(version=1.2), dict(), dict(version=1.2, wrap=True), dict(version=1.2, fmt="%.3f", lhs_spacer=""),
+               dict(version=1.2, header_width=30, data_section_header="~A"), dict(wrap=False, mnemonics_header=True),
+               dict(version=1.2, len_numeric_field=-1, spacer="\t")]
+
+
+def dup_base(rng, kind=None, version=None):
+    """a self-consistent base (regular index, STRT/STOP/STEP agree with the data) of the given version whose ~Well repeats NULL
+    (same value / two values / three times / in two spellings), or repeats COMP or UWI, or whose ~Parameter repeats a mnemonic"""
+    import lasgen
+    kind = kind or rng.choice(DUP_KINDS)
+    s = lasgen.basic_spec(rng, ncurves=rng.randint(1, 4), nrows=rng.choice([1, 2, 3]), version=version or rng.choice(["1.2", "2.0"]))
+    s.wrap = "NO"
+    for i, row in enumerate(s.rows):
+        row[0] = "%.1f" % (1.0 + 0.5 * i)
+    s.well[1] = ("STOP", "M", s.rows[-1][0], "STOP")
+    s.curves[0] = (s.curves[0][0], "M", "", s.curves[0][3])
+    if kind.startswith("null"):
+        n1 = rng.choice(DUP_NULLS)
+        others = [x for x in DUP_NULLS if float(x) != float(n1)]
+        n2 = n1 if kind == "null_same" else rng.choice(others) if kind == "null_diff" else rng.choice(DUP_NULLS)
+        names = ["NULL", "NULL"]
+        if kind == "null_case":
+            names = rng.choice([["NULL", "Null"], ["null", "NULL"], ["Null", "null"]])
+        items = [(names[0], "", n1, "NULL VALUE"), (names[1], rng.choice(["", "", "M"]), n2, rng.choice(DUP_NULL_DESCRS))]
+        if kind == "null_three":
+            items.append(("NULL", "", rng.choice(DUP_NULLS), rng.choice(DUP_NULL_DESCRS)))
+        s.null = None
+        rest = [w for w in s.well if w[0] not in ("STRT", "STOP", "STEP")]
+        if rng.random() < 0.5:
+            # the NULL lines together after STEP (where the standard puts the one NULL line)
+            s.well = s.well[:3] + items + rest
+        else:
+            w = list(s.well)
+            for it in items:
+                w.insert(rng.randint(0, len(w)), it)
+            s.well = w
+    if kind == "well_item":
+        m = rng.choice(["COMP", "UWI", "UWI", "WELL"])
+        vals = ["100091604920W300", "007"] if m == "UWI" else ["ANY OIL COMPANY INC.", "WELL-1", "12-34", ""]
+        s.well = [w for w in s.well if w[0] != m]
+        for d in ("first", "the same mnemonic again"):
+            s.well.insert(rng.randint(3, len(s.well)), (m, "", rng.choice(vals), d))
+    if kind in ("param", "null_and_param"):
+        m = rng.choice(["BHT", "MUD", "RM"])
+        for d in ("first", "the same mnemonic again", "and again")[:rng.choice([2, 2, 3])]:
+            s.params.insert(rng.randint(0, len(s.params)), (m, rng.choice(["", "DEGC", "OHMM"]), rng.choice(["35.5", "GEL CHEM", "12", ""]), d))
+    return lasgen.render(s)[0]
+
+
+def dup_bases(rng, n):
+    """n bases that go through DUP_KINDS in turn, versions alternating (so the first nine cover every kind whatever the seed)"""
+    return [("dup:%s:%d" % (DUP_KINDS[i % len(DUP_KINDS)], i),
+             dup_base(rng, DUP_KINDS[i % len(DUP_KINDS)], ["1.2", "2.0"][(i + i // len(DUP_KINDS)) % 2])) for i in range(n)]
+
+
+def says_12(text):
+    import re
+    return re.search(r"(?m)^\s*VERS\s*\.\s+1\.2\b", text) is not None
+
+
+def dup12_wopts(rng, text):
+    """an option set under which the base is written in the LAS 1.2 layout"""
+    w = rng.choice(DUP12_WOPTS)
+    if "version" not in w and not says_12(text):
+        w = dict(w, version=1.2)
+    return w
+
+
 EXPLICIT = [dict(STOP=1010.0), dict(STRT=0.0), dict(STEP=0.0), dict(STOP=5.5, version=1.2), dict(STRT=1.0, STOP=2.0, STEP=0.25)]
 
 
@@ -166,16 +244,27 @@ def run(ctx):
     rng = ctx.rng
     cases, meta, kinds, same_text, same_data = [], [], set(), [], []
     hist = {"corpus": 0, "generated": 0, "dlm_comma_tab": 0, "lossy_index_format": 0, "not_accepted": 0, "nonblank_spacer": 0, "read_options": 0, "lhs_spacer": 0,
-            "column_fmt_j_gt_0": 0}
+            "column_fmt_j_gt_0": 0, "duplicated_mnemonic": 0, "null_twice": 0, "null_twice_written_as_1.2": 0}
     bs = bases(ctx)
+    # the bases with a repeated mnemonic and the choices made for them draw from a generator of their own: the sample of the
+    # other classes is the same with and without them
+    import random
+    drng = random.Random(ctx.seed + 1104)
+    bs_plain = list(bs)
+    bs += dup_bases(drng, 27 if ctx.thorough else 9)
     n_corpus = sum(1 for n, _ in bs if n.startswith("corpus:"))
     not_accepted = []
     per = 6 if ctx.thorough else 1
     for name, text in bs:
-        for _ in range(per):
+        dup = name.startswith("dup:")
+        rng = drng if dup else ctx.rng
+        for rep in range(per + 1 if dup else per):
             wkw = rng.choice(LOSSY_WOPTS) if name.startswith("lossy") else rng.choice(WOPTS)
             rkw = rng.choice(ROPTS)
             k = rng.choice([1, 2, 4]) if ctx.thorough else rng.choice([1, 2])
+            if dup and rep == 0:
+                # every base with a repeated mnemonic is cycled 2-3 times in the LAS 1.2 layout; the other chains draw from WOPTS
+                wkw, k = dup12_wopts(rng, text), rng.choice([2, 3])
             if NONBLANK_SPACERS and rng.random() < 0.08:
                 # implementation-side oracle only (the writer model assumes blank spacers)
                 wnb = rng.choice(NONBLANK_WOPTS)
@@ -199,14 +288,18 @@ def run(ctx):
             meta.append((name, text, ops))
             kinds.add((name, tuple(sorted((a, str(b)) for a, b in wkw.items())), tuple(sorted(rkw.items()))))
             hist["corpus" if name.startswith("corpus") else ("dlm_comma_tab" if name.startswith("dlm") else
-                                                            ("lossy_index_format" if name.startswith("lossy") else "generated"))] += 1
+                                                            ("lossy_index_format" if name.startswith("lossy") else
+                                                             ("duplicated_mnemonic" if dup else "generated")))] += 1
+            hist["null_twice"] += name.startswith("dup:null")
+            hist["null_twice_written_as_1.2"] += name.startswith("dup:null") and (wkw.get("version") == 1.2 or ("version" not in wkw and says_12(text)))
             hist["read_options"] += bool(rkw)
             hist["lhs_spacer"] += "lhs_spacer" in wkw
             hist["column_fmt_j_gt_0"] += any(j > 0 for j in (wkw.get("column_fmt") or {}))
     # explicit STRT/STOP/STEP keyword values given on every cycle (implementation-side oracle only: the writer model
     # leaves STRT/STOP/STEP to lasio, as C16 does)
     n_explicit = 0
-    for name, text in bs[::3] + [("irregular:%d" % i, irregular_base(rng)) for i in range(6)]:
+    rng = ctx.rng
+    for name, text in bs_plain[::3] + [("irregular:%d" % i, irregular_base(rng)) for i in range(6)]:
         wkw = rng.choice(EXPLICIT)
         bad, st = oracle(text, wkw, 3)
         if st != "ok":
@@ -248,15 +341,18 @@ def run(ctx):
     else:
         res.corr_error = "model not built"
     # a class of accepted inputs that turns into rejected ones must not shrink the sample silently
-    if not_accepted or n_corpus < MIN_CORPUS:
+    if not_accepted or n_corpus < MIN_CORPUS or hist["null_twice_written_as_1.2"] < MIN_NULL_TWICE_12:
         res.corr_error = ((res.corr_error + "; ") if res.corr_error else "") + \
-            ("%d input(s) built as accepted were not accepted (%s); %d example files passed the corpus filter (expected >= %d)"
-             % (len(not_accepted), "; ".join(not_accepted[:3]), n_corpus, MIN_CORPUS))
+            ("%d input(s) built as accepted were not accepted (%s); %d example files passed the corpus filter (expected >= %d); "
+             "%d chains with a repeated NULL line written in the 1.2 layout (expected >= %d)"
+             % (len(not_accepted), "; ".join(not_accepted[:3]), n_corpus, MIN_CORPUS, hist["null_twice_written_as_1.2"], MIN_NULL_TWICE_12))
     res.oracle_violations.sort(key=lambda v: NONBLANK_TAG in v["what"])      # violations outside the known class are reported first
     res.cases = len(cases) + n_explicit
     res.distinct_nontrivial = len(kinds)
     res.rule = ("accepted inputs = the readable/writable ASCII LAS 1.2/2.0 example files plus generated files with odd features "
-                "(.1IN unit, duplicated/blank mnemonics, empty value with unit, long fields) and generated DLM COMMA/TAB files x writer "
+                "(.1IN unit, duplicated/blank mnemonics, empty value with unit, long fields), generated DLM COMMA/TAB files and files of "
+                "both versions that repeat a mnemonic inside a section (NULL two or three times in ~Well with equal / different values "
+                "and spellings, COMP/UWI/WELL twice, a ~Parameter mnemonic two or three times; each cycled in the 1.2 layout) x writer "
                 "option sets (versions, wrap, formats, column_fmt for j >= 0, field width, spacer, lhs_spacer, header styles; ',' ';' '' "
                 "spacers on the implementation side) x read options (default, mnemonic_case, engine, ignore_header_errors) x 2..5 "
                 "read->write cycles; non-trivial = distinct (base, option set, read options)")
@@ -300,11 +396,12 @@ def finding_of(payload):
 def search(ctx, res):
     import random
     rng = random.Random(ctx.seed + 41)
-    bs = [("corpus:" + n, t) for n, t in corpus_files.corpus()] + [("gen", corpus_files.generated(rng)) for _ in range(300)] + \
-        [("dlm", delimited_base(rng)) for _ in range(60)]
+    bs = dup_bases(random.Random(ctx.seed + 43), 18) + [("corpus:" + n, t) for n, t in corpus_files.corpus()] + [("gen", corpus_files.generated(rng)) for _ in range(300)] + \
+        [("dlm", delimited_base(rng)) for _ in range(60)] + dup_bases(random.Random(ctx.seed + 44), 90)
+    drng = random.Random(ctx.seed + 45)
     for name, text in bs:
         for wkw in WOPTS:
-            rkw = rng.choice(ROPTS)
+            rkw = (drng if name.startswith("dup:") else rng).choice(ROPTS)
             bad, st = oracle(text, wkw, 3, rkw)
             if st == "ok" and bad:
                 yield {"payload": {"text": text, "wkw": wkw, "k": 3, "rkw": rkw}, "what": "%s: %s" % (name, bad)}
